@@ -46,14 +46,14 @@ Definition set_offset (ms : mini) (off : N) : outcome mini :=
   | _ => Crash IndexError
   end.
 
-Fixpoint close_minis (l : list (N * mini)) (data : bytes) : outcome (list mini * bytes) :=
+Fixpoint close_minis (l : list (N * mini)) (data : bytes) : outcome (list (N * mini) * bytes) :=
   match l with
   | [] => Ok ([], data)
-  | (_, ms) :: r =>
+  | (k, ms) :: r =>
       let '(ms1, res) := ms_close sp ms in
       bind res (fun _ =>
       bind (set_offset ms1 (lenN data)) (fun ms2 =>
-      bind (close_minis r (data ++ ms_data ms1)) (fun '(rest, d) => Ok (ms2 :: rest, d))))
+      bind (close_minis r (data ++ ms_data ms1)) (fun '(rest, d) => Ok ((k, ms2) :: rest, d))))
   end.
 
 (* np.reshape(header, (3, n), order="F").tobytes(order="C"):
@@ -71,19 +71,29 @@ Definition index_bytes (hdr : list N) : outcome bytes :=
 Definition pack_q (v : N) : outcome bytes :=
   if two64 <=? v then Crash StructError else Ok (le64 v).
 
-(* second loop: encoded minishard indices and the shard-index entries *)
-Fixpoint write_indices (l : list mini) (data_size sh_size : N)
+(* n empty (start, end) pairs at offset v *)
+Definition empty_entries (n : nat) (v : N) : bytes :=
+  concat (repeat (le64 v ++ le64 v) n).
+
+(* second loop: encoded minishard indices and the shard-index entries.
+   [slot] = number of entries already in sh_idx_buf (its length / 16).  Before
+   the entry of minishard number [key] the index is padded with empty ranges
+   up to slot [key]  (while len(sh_idx_buf) < int(key) * 16: ...; the keys of
+   the real writer are always integers). *)
+Fixpoint write_indices (l : list (N * mini)) (slot : N) (data_size sh_size : N)
   : outcome (bytes * bytes * N) :=        (* index bytes written, shard index, sh_size *)
   match l with
   | [] => Ok ([], [], sh_size)
-  | ms :: r =>
+  | (key, ms) :: r =>
+      bind (if slot <? key then pack_q (data_size + sh_size) else Ok []) (fun _ =>
+      let padding := empty_entries (N.to_nat (key - slot)) (data_size + sh_size) in
       bind (index_bytes (ms_hdr ms)) (fun raw =>
       let enc := idx_enc raw in
       bind (pack_q (data_size + sh_size)) (fun a =>
       let sh_size' := sh_size + lenN enc in
       bind (pack_q (data_size + sh_size')) (fun b =>
-      bind (write_indices r data_size sh_size') (fun '(w, ix, fin) =>
-      Ok (enc ++ w, a ++ b ++ ix, fin)))))
+      bind (write_indices r (N.max slot key + 1) data_size sh_size') (fun '(w, ix, fin) =>
+      Ok (enc ++ w, padding ++ a ++ b ++ ix, fin))))))
   end.
 
 (* while sh_idx_len < hl: append two copies of the end offset *)
@@ -102,7 +112,7 @@ Definition shard_close (st : shard) : outcome (option bytes) :=
   let zeros := repeat 0 (N.to_nat hl) in
   bind (close_minis (sort_by_key (sh_minis st)) []) (fun '(minis, data) =>
   let data_size := lenN data in
-  bind (write_indices minis data_size 0) (fun '(w, ix, sh_size) =>
+  bind (write_indices minis 0 data_size 0) (fun '(w, ix, sh_size) =>
   let written := zeros ++ data ++ w in
   if lenN ix =? hl then Ok (Some (patch0 ix written))
   else if hl <=? lenN ix then IOErr                    (* ShardedIOError: too many minishards *)
